@@ -1085,7 +1085,7 @@ func main() {
 			if tier == "thorough" {
 				n = "4 (and 5 on corpus A)"
 			}
-			return sizeRule(tier) + "GRID: real rare binary, one process per case: programs {" + strings.Join(pn, "; ") + "} x corpora {A plain, B gzip/plain alternating with -z, C with an unparsable increment and a non-matching line, D without any match, E with zero-padded and signed increments (010, -007, +09)} of " + n +
+			return sizeRule(tier) + "GRID: real rare binary, one process per case: programs {" + strings.Join(pn, "; ") + "} x corpora {A plain, B gzip/plain alternating with -z, C with an unparsable increment and a non-matching line, D without any match, E with zero-padded and signed increments (010, -007, +09), F with an empty second field (the empty string as row, column, sub-key or group)} of " + n +
 				" lines `key|sub|number` (keys with comma, quote, CR, leading space) x every surjection of the lines onto 1..3 ordered files (every division x every argument order) x --workers {1,2,4} x --batch {1,2,1000} x --batch-buffer {1,4} x --readers {1,3} x GOMAXPROCS {1,4}; " +
 				"the one-file layout additionally through standard input (`-` and no argument) and with --csv - ; the order-sensitive program reduce-ordered only with one reader and one worker. Every run: --snapshot stdout, --csv file, exit status compared with the reference fold and with the baseline configuration (csv and exit status byte for byte, snapshot modulo column padding) (one file, 1 worker, 1 reader, GOMAXPROCS 1). non-trivial = the reference has at least one match"
 		},
